@@ -256,7 +256,9 @@ SPAN = re.compile(rb'<tspan(?: class="[^"]*")?>([^<]*)</tspan>')
 
 def oracle(data):
     """(width attribute in px, {escaped fragment bytes: number of fill characters}) read
-    from the raw bytes; rows sharing one y are (background, foreground)"""
+    from the raw bytes; rows sharing one y are (background, foreground).  The key is the
+    fragment as write_bg_span measures it: encode_text only, i.e. with a literal CR where
+    the foreground span has the reference &#13;"""
     m = re.match(rb'<svg width="(\d+)px"', data)
     width = int(m.group(1)) if m else 0
     rows = []
@@ -271,7 +273,7 @@ def oracle(data):
             bg, fg = rows[i][1], rows[i + 1][1]
             if len(bg) == len(fg):
                 for b, f in zip(bg, fg):
-                    fills[f.encode("utf-8")] = len(b)
+                    fills[f.replace("&#13;", "\r").encode("utf-8")] = len(b)
             i += 2
         else:
             i += 1
